@@ -4,7 +4,7 @@
 # /verif), optionally checks that the existing test suite still passes, runs
 # the quick checks of the given properties against it and removes the worktree.
 # Evidence of these runs goes to out/sens-evidence, never to evidence/.
-patch="$1"; shift
+patch=$(realpath "$1"); shift
 wt="/tmp/sens_$$"
 cd "$(dirname "$0")/.." || exit 2
 git -C /repo worktree add -q "$wt" HEAD || exit 2
